@@ -143,6 +143,37 @@ fn check_dense(eng: &str, rate: &str, k: usize, r: usize, bytes: usize, seed: u6
     Ok(r as u64)
 }
 
+/// structured data a (an all-zero shard, two equal shards, 0xFFFF, equal halves, 0/1/0xFFFF cycles - the values a
+/// data-dependent short cut would single out), dense b: rec(a^b) == rec(a)^rec(b), and rec(a) equals the XOR of
+/// the recoveries of a's shards taken one at a time (all other shards zero)
+fn check_special(eng: &str, rate: &str, k: usize, r: usize, bytes: usize, seed: u64) -> Result<u64, V> {
+    let e = |d: &Vec<Vec<u8>>, soil: u64| real_encode(eng, rate, k, r, bytes, d, soil).map_err(|e| ("encode Ok".to_string(), e));
+    let a = data_special(k, bytes);
+    let b = data_dense(k, bytes, seed ^ 0x5EC1);
+    let ra = e(&a, 0)?;
+    let rb = e(&b, seed | 1)?;
+    let rab = e(&xor_sets(&a, &b), 0)?;
+    if xor_sets(&ra, &rb) != rab {
+        let j = (0..r).find(|j| ra[*j].iter().zip(&rb[*j]).map(|(p, q)| p ^ q).collect::<Vec<u8>>() != rab[*j]).unwrap_or(0);
+        return Err((format!("recovery[{j}](special ^ dense) == recovery(special) ^ recovery(dense)"), hex(&rab[j])));
+    }
+    let mut n = r as u64;
+    if k <= 12 {
+        let mut acc = vec![vec![0u8; bytes]; r];
+        for i in 0..k {
+            let mut one = vec![vec![0u8; bytes]; k];
+            one[i] = a[i].clone();
+            acc = xor_sets(&acc, &e(&one, if i % 2 == 0 { seed | 1 } else { 0 })?);
+            n += r as u64;
+        }
+        if acc != ra {
+            let j = (0..r).find(|j| acc[*j] != ra[*j]).unwrap_or(0);
+            return Err((format!("recovery[{j}](special) == XOR of the recoveries of its shards one at a time = {}", hex(&acc[j])), hex(&ra[j])));
+        }
+    }
+    Ok(n)
+}
+
 fn xor_sets(a: &[Vec<u8>], b: &[Vec<u8>]) -> Vec<Vec<u8>> {
     a.iter().zip(b).map(|(x, y)| x.iter().zip(y).map(|(p, q)| p ^ q).collect()).collect()
 }
@@ -208,6 +239,7 @@ fn run_case(f: &gfref::Field, kv: &Kv) -> Result<u64, V> {
         "weight3" => check_weight3(eng, rate, k, r),
         "scalar" => check_scalar(f, eng, rate, k, r, kv.usize("i"), kv.usize("b")),
         "dense" => check_dense(eng, rate, k, r, kv.usize("bytes"), kv.u64("seed")),
+        "special" => check_special(eng, rate, k, r, kv.usize("bytes"), kv.u64("seed")),
         "blocks" => check_blocks(eng, rate, k, r, kv.usize("bytes"), kv.u64("seed")),
         t => panic!("test {t}"),
     }
@@ -220,7 +252,7 @@ pub fn replay(_ctx: &Ctx, case: &str) -> Result<(), String> {
 
 pub fn run(ctx: &Ctx, rep: &mut Report) {
     let f = gfref::Field::new();
-    rep.rule = "per (engine, rate, (k,r)): zero->zero; every one of the 65536 symbol values on every coordinate axis equals the XOR of the outputs of its bits; every input of GF(2)-weight <= 3 over the 16k basis bits (all pairs; all triples for k<=3, cross-original triples on a fixed stride above) equals the XOR of basis outputs; every field constant times every basis vector; dense a,b,a^b at 64/66 bytes; with 192/200-byte shards: every delta confined to one 64-byte block of one shard, the sum of all of them, k identical shards against their one-at-a-time decomposition; non-trivial = every relation checked on a non-zero input; distinct by (test,engine,rate,k,r,axis/bit)".into();
+    rep.rule = "per (engine, rate, (k,r)): zero->zero; every one of the 65536 symbol values on every coordinate axis equals the XOR of the outputs of its bits; every input of GF(2)-weight <= 3 over the 16k basis bits (all pairs; all triples for k<=3, cross-original triples on a fixed stride above) equals the XOR of basis outputs; every field constant times every basis vector; dense a,b,a^b at 64/66 bytes; structured-value data (zero shard, equal shards, 0xFFFF, equal halves, 0/1/0xFFFF cycles) against dense data and against its one-shard-at-a-time decomposition; with 192/200-byte shards: every delta confined to one 64-byte block of one shard, the sum of all of them, k identical shards against their one-at-a-time decomposition; non-trivial = every relation checked on a non-zero input; distinct by (test,engine,rate,k,r,axis/bit)".into();
     rep.assume("input vectors are packed one per 16-bit slot; slots do not interact (C04)");
     let mut cfgs: Vec<(usize, usize)> = Vec::new();
     let kmax = if ctx.thorough() { 9 } else { 5 };
@@ -247,6 +279,12 @@ pub fn run(ctx: &Ctx, rep: &mut Report) {
                 for bytes in [64usize, 66] {
                     cases.push(base.clone().with("test", "dense").with("bytes", bytes).with("seed", ctx.seed));
                 }
+                for bytes in [64usize, 130] {
+                    if slow && bytes == 130 && !ctx.thorough() {
+                        continue;
+                    }
+                    cases.push(base.clone().with("test", "special").with("bytes", bytes).with("seed", ctx.seed));
+                }
                 for bytes in [192usize, 200] {
                     if slow && (k + r > 6 || bytes == 200) && !ctx.thorough() {
                         continue;
@@ -269,6 +307,24 @@ pub fn run(ctx: &Ctx, rep: &mut Report) {
             }
         }
     }
+    // mid-size configurations (several chunks on the transformed side, counts around 32/64-position words)
+    let mids: Vec<(usize, usize)> = if ctx.thorough() { vec![(20, 12), (12, 20), (33, 31), (70, 40), (40, 70), (100, 36), (36, 100), (64, 64), (130, 9), (9, 130)] } else { vec![(20, 12), (12, 20), (33, 31), (70, 40), (40, 70)] };
+    for &eng in &engines_all() {
+        if eng == "default" || (eng == "naive" || eng == "neonemu") && !ctx.thorough() {
+            continue;
+        }
+        for rate in ["high", "low"] {
+            for &(k, r) in &mids {
+                let base = Kv::new().with("eng", eng).with("rate", rate).with("k", k).with("r", r);
+                cases.push(base.clone().with("test", "zero"));
+                cases.push(base.clone().with("test", "dense").with("bytes", 66).with("seed", ctx.seed));
+                cases.push(base.clone().with("test", "special").with("bytes", 64).with("seed", ctx.seed));
+                cases.push(base.clone().with("test", "special").with("bytes", 130).with("seed", ctx.seed));
+                cases.push(base.clone().with("test", "blocks").with("bytes", 192).with("seed", ctx.seed));
+            }
+        }
+    }
+    rep.bound("mid_size_cfg", J::s(format!("{mids:?} x {{high,low}} x {{nosimd,ssse3,avx2}} (thorough: every engine): zero, dense pairs, structured-value data (sum and one-shard-at-a-time decomposition), block-confined deltas")));
     rep.bound("cfg", J::s(format!("[1..{kmax}]^2{} x {{high,low}} x {{naive,nosimd,ssse3,avx2,neonemu}}", if ctx.thorough() { " + (33,3) (3,33)" } else { "" })));
     rep.bound("axis_scalar_thinning", J::s("quick: for slow engines with k+r>4 and for k+r>8 one fixed axis and one fixed bit per configuration, else every axis and every 2nd bit; thorough: every axis and bit except slow engines with k+r>8 (one fixed axis/bit)"));
     let results: Vec<Result<u64, V>> = par_for(cases.len(), 1, |i| match guard(|| run_case(&f, &cases[i])) {
